@@ -100,7 +100,7 @@ pub fn child_digest(tier: &Tier) -> u64 {
         let opts = SweepOpts {
             threads: threads(),
             wall_limit_s: 120,
-            on_stuck: Box::new(|_, idx| eprintln!("MACHINERY ERROR: C06 child stuck at {idx}")),
+            on_stuck: Box::new(|_, idx| { eprintln!("MACHINERY ERROR: C06 child stuck at {idx}"); None }),
             fam_no: fi,
             stride: *stride,
             offset: 0,
@@ -153,7 +153,7 @@ pub fn run(ctx: &Ctx) -> i32 {
         let opts = SweepOpts {
             threads: threads(),
             wall_limit_s: 120,
-            on_stuck: Box::new(|_, idx| eprintln!("MACHINERY ERROR: C06 stuck at {idx}")),
+            on_stuck: Box::new(|_, idx| { eprintln!("MACHINERY ERROR: C06 stuck at {idx}"); None }),
             fam_no: fi,
             stride: *stride,
             offset: 0,
